@@ -115,8 +115,8 @@ CLAIMS = {
               "findn family: every n in 0..k+2 with stale-filled buffers; oracle compares find_n with find on the implementation itself.",
               "Lean 4 proof (induction over the pushed sequence) + search translated to Lean and proved equal to the model + differential correspondence"),
     "C18": _c("Proved: an independent strict reader recovers exactly year, fields, nanoseconds and offset from the rendering for every year in i32 "
-              "and offset in i32 \\ {MIN}; 'Z' iff offset 0; fixed widths. core::fmt padding is modelled (tied by the fmt family). " + _K,
-              "Lean 4 proof (round trip through an independent reader) + differential correspondence"),
+              "and offset in i32 \\ {MIN}; 'Z' iff offset 0; fixed widths. core::fmt padding is modelled (tied by the fmt family). " + _S + _K,
+              "Lean 4 proof (round trip through an independent reader) + formatter source translated to Lean and proved equal to the model + differential correspondence"),
     "C19": _c("The harness (a client of the public API) is built against /repo with no features, `alloc` and `std`; each runs the same deterministic "
               "corpus restricted to the API available everywhere; the three streams must be identical and the std stream equal to the Lean model's. "
               "A build failure in any configuration is a violation.",
